@@ -740,6 +740,29 @@ theorem C10_keys_public_flag (c : Curve.CurveParams) (b : Bytes) (f : Bool) (P :
   · unfold keysPublic
     cases hk : keyFromPair c P (fl.getD true) <;> simp [hk]
 
+/-- C10.is_sec: the shape test holds of every blob `Key.from_sec` accepts (32-byte fields), and of nothing with another
+length or prefix -/
+theorem C10_is_sec (c : Curve.CurveParams) (hc : Sec.Field32 c) (blob : Bytes) :
+    (∀ k, keyFromSec c blob = .ok k → isSec blob = true) ∧
+    (isSec blob = true ↔
+      (blob.length = 33 ∧ (blob.take 1 = [2] ∨ blob.take 1 = [3])) ∨ (blob.length = 65 ∧ blob.take 1 = [4])) := by
+  have hiff : isSec blob = true ↔
+      (blob.length = 33 ∧ (blob.take 1 = [2] ∨ blob.take 1 = [3])) ∨ (blob.length = 65 ∧ blob.take 1 = [4]) := by
+    unfold isSec
+    by_cases h1 : (blob.take 1 = [2] ∨ blob.take 1 = [3]) ∧ blob.length = 33
+    · rw [if_pos h1]
+      exact ⟨fun _ => Or.inl ⟨h1.2, h1.1⟩, fun _ => rfl⟩
+    · rw [if_neg h1]
+      simp only [decide_eq_true_eq]
+      constructor
+      · intro h; exact Or.inr ⟨h.2, h.1⟩
+      · rintro (h | h)
+        · exact absurd ⟨h.2, h.1⟩ h1
+        · exact ⟨h.2, h.1⟩
+  refine ⟨?_, hiff⟩
+  intro k hk
+  exact hiff.mpr (C10_sec_strict c hc blob k hk).2.2.2.2.2.2.2.2
+
 end keyops
 
 end Pycoin.C10
